@@ -80,7 +80,8 @@ CLAIMS = {
          "exactly the loader family of that layout (three sections in order + rebuild + store + init / one Slim section + prefix re-encoding + leaf "
          "array reconstruction + init / one Slim section + init), fix-up functions identified by the wire fields they write and no other in-place rewrite "
          "on a success path; loaders driven by constant tables are unrolled; no bitmap word is trimmed in place with mask(n&63) unguarded; the legacy "
-         "loader never decides emptiness from the children array alone; legacy arrays are "
+         "loader never decides emptiness from the children array alone; no part of a split multi-byte quantity is modified in its own width "
+         "before recombination (lost carry); legacy arrays are "
          "ranked over their own (Bitmaps, Offsets). Does not decide the conversions' arithmetic on arbitrary old streams."),
    design="4/C06"),
  "C07": dict(
